@@ -6,6 +6,8 @@ rsync -a --delete --exclude .git --exclude 'build/cache' --exclude replay /verif
 for D in /verif/seeded/$GLOB/; do
   N=$(basename $D); [ -f $D/meta.json ] || continue
   P=$(/venv/bin/python -c "import json;print(json.load(open('$D/meta.json'))['property'])")
+  NB=$(/venv/bin/python -c "import json;print(json.load(open('$D/meta.json')).get('neutralised_by',''))")
+  if [ -n "$NB" ]; then echo "$N $P NEUTRALISED-BY-$NB"; continue; fi
   WT=/tmp/wt_seedall
   git -C /repo worktree remove --force $WT 2>/dev/null
   git -C /repo worktree add -q --detach $WT main || { echo "$N worktree failed"; continue; }
